@@ -329,7 +329,7 @@ pub fn op_strategy(w: &Weights) -> BoxedStrategy<Op> {
                 9 => Op::PushPrice { v, up: b, strength: k1 },
                 10 => Op::Squeeze { v, target: t, knob: k1 },
                 11 => Op::EngineCfg { field: s2, knob: k1, knob2: k2 },
-                12 => Op::VammCfg { v, field: s1 % 6, knob: k1 },
+                12 => Op::VammCfg { v, field: s1 % 10, knob: k1 },
                 13 => Op::SetPause { pause: b },
                 14 => Op::SetOpen { v, open: b },
                 15 => Op::Register { v, add: b },
